@@ -20,7 +20,7 @@ RULE = ("a case is (hash algorithm, secret p as text or bytes - empty, Unicode, 
         "dumps/loads in every format so the same challenges keep their outcome, and a plaintext written by hand into "
         "a document is hashed on load; non-trivial = non-empty p with >= 3 near misses judged; distinct = distinct "
         "case content")
-REQUIRED = ("same_field_reassignments", "env_bound_unset_variable", "reset_default_checks", "bulk_list_salt_checks", "digests_recomputed", "fresh_salt_checks", "challenge_accepts_p", "challenge_rejects_q", "leak_scans_memory",
+REQUIRED = ("digest_values_with_other_salt_length", "plaintext_in_included_file_hashed", "same_field_reassignments", "env_bound_unset_variable", "reset_default_checks", "bulk_list_salt_checks", "digests_recomputed", "fresh_salt_checks", "challenge_accepts_p", "challenge_rejects_q", "leak_scans_memory",
             "leak_scans_documents", "roundtrips_digest_unchanged", "plaintext_in_document_hashed", "alg:md5", "alg:sha1",
             "alg:sha224", "alg:sha256", "alg:sha384", "alg:sha512")
 ASSUMPTIONS = ["hashlib is the reference implementation of the six algorithms", "documents are produced/decoded with the "
@@ -51,7 +51,10 @@ def generate(rng, ctx):
         p = tok
     as_bytes = rng.random() < 0.3
     return {"alg": alg, "p": p.encode() if as_bytes else p, "tok": tok if tok in p else None,
-            "place": rng.choice(["root", "nested", "list-item", "list-of-challenge", "default-plain", "default-digest"]),
+            "place": rng.choice(["root", "nested", "list-item", "list-of-challenge", "default-plain", "default-digest",
+                                 "assigned-digest"]),
+            # digest values given directly (imported hashes) may carry a salt of any length
+            "salt_len": rng.choice([None, None, 1, -1, 8, "double"]),
             "fmts": rng.sample(trees.FORMATS, rng.choice([2, 3, 5])), "upper": rng.random() < 0.3,
             # the field may be bound to an environment variable that is NOT set (must behave as if unbound)
             "env": rng.choice([None, None, "field-named", "field-auto", "schema-prefix"]),
@@ -112,8 +115,18 @@ def run(case, ctx, res):
     kw = {}
     if place == "default-plain" and isinstance(p, str):
         kw["default"] = p
-    elif place == "default-digest":
-        kw["default"] = cc.DigestValue.create(p, cc.ChallengeField.ALGORITHMS[alg])
+    given = None
+    if place in ("default-digest", "assigned-digest"):
+        sl = case.get("salt_len")
+        if sl is None:
+            given = cc.DigestValue.create(p, cc.ChallengeField.ALGORITHMS[alg])
+        else:
+            n = {1: 1, -1: ALGS[alg] - 1, 8: ALGS[alg] + 8, "double": 2 * ALGS[alg]}[sl]
+            salt = bytes((7 * i + len(pb)) % 256 for i in range(n))
+            given = cc.DigestValue(salt, hashlib.new(alg, salt + pb).digest(), cc.ChallengeField.ALGORITHMS[alg])
+            res.count("digest_values_with_other_salt_length")
+    if place == "default-digest":
+        kw["default"] = given
     if envmode == "field-named":
         kw["env"] = "VFC09_PW"
     elif envmode == "field-auto":
@@ -123,11 +136,14 @@ def run(case, ctx, res):
     schema.items = cc.ListField(item)
     schema.pws = cc.ListField(cc.ChallengeField(algname))
     schema.name = cc.StringField(default="n")
+    schema.inc = cc.IncludeField()
 
     def build():
         cfg = schema()
         if place == "root" or (place == "default-plain" and not isinstance(p, str)):
             cfg.pw = p
+        elif place == "assigned-digest":
+            cfg.pw = given
         elif place == "nested":
             cfg.sub.deep.pw = p
         elif place == "list-item":
@@ -137,7 +153,7 @@ def run(case, ctx, res):
         return cfg
 
     def value_of(cfg):
-        if place in ("root", "default-plain", "default-digest"):
+        if place in ("root", "default-plain", "default-digest", "assigned-digest"):
             return cfg.pw
         if place == "nested":
             return cfg.sub.deep.pw
@@ -160,11 +176,15 @@ def run(case, ctx, res):
         res.viol("M-digest", "digest-not-hash-of-salt-plus-secret:" + feat, "stored digest %s differs from %s(salt || p) = %s" % (
             bytes(v1.digest).hex()[:16], alg, want.hex()[:16]))
         return
-    if len(v1.salt) != size or len(v1.digest) != size:
+    if given is not None and (bytes(v1.salt) != bytes(given.salt) or bytes(v1.digest) != bytes(given.digest)):
+        res.viol("M-digest", "given-digest-altered:" + feat, "a digest value given directly (salt of %d bytes) is held as salt %d bytes / "
+                 "digest %s" % (len(given.salt), len(v1.salt), bytes(v1.digest).hex()[:16]))
+        return
+    if (given is None and len(v1.salt) != size) or len(v1.digest) != size:
         res.viol("M-digest", "salt-length:" + feat, "salt has %d bytes, digest %d, %s digests have %d" % (
             len(v1.salt), len(v1.digest), alg, size))
         return
-    if place != "default-digest":
+    if place not in ("default-digest", "assigned-digest"):
         res.count("fresh_salt_checks")
         if bytes(v1.salt) == bytes(v2.salt):
             res.viol("M-digest", "salt-reused:" + feat, "two assignments of one secret got the same salt %s" % bytes(v1.salt).hex()[:16])
@@ -173,8 +193,9 @@ def run(case, ctx, res):
             res.viol("M-digest", "salt-not-random:" + feat, "salt %s" % bytes(v1.salt).hex())
             return
     # the same secret assigned again to the same field of the same configuration gets a new salt
-    if pb and place != "list-of-challenge":
-        target = {"root": "pw", "default-plain": "pw", "default-digest": "pw", "nested": "sub.deep.pw", "list-item": None}[place]
+    if pb and place != "list-of-challenge" and given is None:
+        target = {"root": "pw", "default-plain": "pw", "default-digest": "pw", "assigned-digest": "pw", "nested": "sub.deep.pw",
+                  "list-item": None}[place]
         try:
             if target is None:
                 cfg1.items[0].pw = p if isinstance(p, str) else p.decode()
@@ -295,7 +316,7 @@ def run(case, ctx, res):
                 continue
             res.viol("M-roundtrip", "challenge-after-reload-accepts-q:%s" % place, "%s: challenge(%r) succeeds after reload" % (fmt, _short(q)))
             return
-        if pb and place in ("root", "default-plain", "default-digest"):
+        if pb and place in ("root", "default-plain", "default-digest", "assigned-digest"):
             fresh.pw = p
             res.count("same_field_reassignments")
             if not isinstance(fresh.pw, cc.DigestValue) or bytes(fresh.pw.salt) == bytes(w.salt):
@@ -323,6 +344,34 @@ def run(case, ctx, res):
                 out = hand.dumps(fmt)
                 if find_token(out, tok):
                     res.viol("M-hand", "plaintext-survives-resave", "saving after loading a hand-written plaintext still writes it")
+                    return
+    # ... also when it comes from an included file and the including document holds a saved salt/digest pair for the key
+    if isinstance(p, str) and p and place in ("root", "default-plain", "assigned-digest", "default-digest", "nested"):
+        import os
+
+        fmt = case["fmts"][-1]
+        p2 = p + "-new"
+        base = cfg1.to_tree()
+        incpath = os.path.join(ctx.dir, "c09inc." + fmt)
+        base["inc"] = incpath
+        over = {"pw": p2, "sub": {"deep": {"pw": p2}}}
+        codec = cc.ConfigFormat.get(fmt)
+        if trees.in_domain(fmt, base) and trees.in_domain(fmt, over):
+            hand = schema()
+            try:
+                with open(incpath, "wb") as fp:
+                    fp.write(codec.dumps(hand, over))
+                hand.loads(codec.dumps(hand, base), fmt)
+            except Exception as exc:
+                res.viol("M-hand", "include-with-plaintext-rejected", "%s: a document with saved digests that includes a file with "
+                         "hand-written plaintext raised %s: %s" % (fmt, type(exc).__name__, str(exc)[:150]))
+                return
+            res.count("plaintext_in_included_file_hashed")
+            for where, v in (("pw", hand.pw), ("sub.deep.pw", hand.sub.deep.pw)):
+                if not isinstance(v, cc.DigestValue) or hashlib.new(alg, bytes(v.salt) + p2.encode()).digest() != bytes(v.digest):
+                    res.viol("M-hand", "included-plaintext-not-hashed", "%s: the included file gives the plaintext %r for %s, the "
+                             "including document a saved digest; loaded as %r, which does not verify the new secret" % (
+                                 fmt, _short(p2), where, _short(v)))
                     return
     if pb and len(misses) >= 3:
         res.nontrivial(case["alg"], case["p"], case["place"], case["fmts"])
